@@ -178,3 +178,11 @@ Fixpoint mask_scatter (mask : list bool) (dst vals : list Q) : list Q :=
   | _, _ => dst
   end.
 Definition sadd (s : Q) (a : list Q) : list Q := map (Qplus s) a.
+(* a > b element-wise; a[mask] (the elements at the True positions); np.abs *)
+Definition gt_mask (a b : list Q) : list bool := map (fun p => Qltb (snd p) (fst p)) (combine a b).
+Fixpoint mask_select {A} (mask : list bool) (l : list A) : list A :=
+  match mask, l with
+  | m :: ms, x :: xs => if m then x :: mask_select ms xs else mask_select ms xs
+  | _, _ => []
+  end.
+Definition vabs (a : list Q) : list Q := map Qabs a.
